@@ -155,7 +155,7 @@ package zerolog
 //@   ensures [C03,C04] e != nil && old(e.level) != Disabled && old(e.w) != nil ==> ncalls(LevelWriter.WriteLevel) == old(ncalls(LevelWriter.WriteLevel)) + 1 && callarg(LevelWriter.WriteLevel, old(ncalls(LevelWriter.WriteLevel)), 0) == old(e.w) && callarg(LevelWriter.WriteLevel, old(ncalls(LevelWriter.WriteLevel)), 1) == old(e.level) && err == callres(LevelWriter.WriteLevel, old(ncalls(LevelWriter.WriteLevel)), 1)
 //@   ensures [C01,C03] e != nil && old(e.level) != Disabled && old(e.w) != nil ==> eventdone(callarg(LevelWriter.WriteLevel, old(ncalls(LevelWriter.WriteLevel)), 2)) && prefix(callarg(LevelWriter.WriteLevel, old(ncalls(LevelWriter.WriteLevel)), 2), old(e.buf)) && len(callarg(LevelWriter.WriteLevel, old(ncalls(LevelWriter.WriteLevel)), 2)) == len(old(e.buf)) + framebytes()
 //@   ensures [C03,C04] e != nil && (old(e.level) == Disabled || old(e.w) == nil) ==> ncalls(LevelWriter.WriteLevel) == old(ncalls(LevelWriter.WriteLevel)) && err == nil
-//@   ensures [C06,C14] e != nil ==> ncalls(putEvent) == old(ncalls(putEvent)) + 1 && callarg(putEvent, old(ncalls(putEvent)), 0) == e
+//@   ensures [C06,C07,C14] e != nil ==> ncalls(putEvent) == old(ncalls(putEvent)) + 1 && callarg(putEvent, old(ncalls(putEvent)), 0) == e
 //@   ensures e != nil ==> e.level == old(e.level)
 
 //@ iface Hook.Run(h, e, level, message)
